@@ -7,10 +7,10 @@ SECTIONS = ["ops", "fitters"]
 LEAN_MODULES = ["QExPy.Props.C06"]
 THEOREMS = ["QExPy.C06_wls_expansion", "QExPy.C06_wls_optimal", "QExPy.C06_wls_unique", "QExPy.C06_wls_near_optimal",
             "QExPy.C06_vandermonde_posdef", "QExPy.C06_polyfit_characterisation",
-            "QExPy.C06_order", "QExPy.C06_poly_design", "QExPy.C06_objective_poly",
+            "QExPy.C06_order",
             "QExPy.C06_cov_factor", "QExPy.C06_select_mem", "QExPy.C06_select_sublist",
             "QExPy.C06_select_all", "QExPy.C06_grad", "QExPy.C06_stationary_iff",
-            "QExPy.C06_noise_free", "QExPy.C06_eff_var", "QExPy.C07_poly_model",
+            "QExPy.C06_noise_free", "QExPy.C06_eff_var",
             "QExPy.C03_diff_correct"]
 RULE = ("seeded data sets (distinct x, more points than parameters; sigma_y none/common/per-point "
         "spread x20; sigma_x none/common/per-point for exponential, Gaussian and three user models; "
